@@ -128,6 +128,15 @@ async function op_write(req) {
     return res;
 }
 
+function project(v) {
+    if (v === null || v === undefined) return ['n'];
+    if (typeof v === 'string') return ['s', Array.from(v).map(c => c.codePointAt(0))];
+    if (typeof v === 'number') return Number.isInteger(v) ? ['i', v] : ['f', v];
+    if (typeof v === 'boolean') return ['b', v];
+    if (Array.isArray(v)) return ['l', v.map(project)];
+    return ['?', String(v)];
+}
+
 async function op_query_table(req) {
     // req: {query, input, join, input_header, join_header, user_init}
     let input = req.input;
@@ -142,17 +151,17 @@ async function op_query_table(req) {
     let res = {};
     try {
         await rbql.query_table(req.query, input, out, warnings, join, req.input_header || null, req.join_header || null, out_names, true, req.user_init || '');
-        res.out = out;
+        res.out = out.map(r => r.map(project));
         res.warnings = warnings;
         res.header = out_names;
     } catch (e) {
         res.error = err_info(e);
-        res.out = out;
+        res.out = [];
         res.warnings = warnings;
     }
     res.src_intact = (JSON.stringify(input) === snap_in) && (JSON.stringify(join) === snap_join);
     let alias = false;
-    for (let r of out) {
+    for (let r of (res.error ? [] : out)) {
         if (rows_in.indexOf(r) !== -1 || rows_join.indexOf(r) !== -1) alias = true;
     }
     res.alias = alias;
